@@ -241,7 +241,47 @@ def _eval_cond(c: T, asg: Dict[str, object]):
     if c.op == "unop" and c.args[0] == "not":
         v = _eval_cond(c.args[1], asg)
         return None if v is None else (not v)
+    if c.op == "call" and func_name(c) == "builtins.bool" and len(call_parts(c)[1]) == 1:
+        v = _eval_cond(call_parts(c)[1][0], asg)
+        return None if v is None else bool(v)
     return None
+
+
+_UNKNOWN = object()
+
+
+def _pe(t: T, asg):
+    """Tiny partial evaluator for option-driven dispatch tables: constants, tuples, comparisons / bool() over
+    options[...], phi, and subscripts of dict / tuple displays.  Returns a Python value or _UNKNOWN."""
+    t0 = strip_wrappers(t)
+    if t0.op == "const":
+        return t0.args[0]
+    if t0.op == "tuple":
+        vals = [_pe(a, asg) for a in t0.args]
+        return _UNKNOWN if any(v is _UNKNOWN for v in vals) else tuple(vals)
+    if t0.op == "phi":
+        v = _eval_cond(t0.args[0], asg)
+        return _UNKNOWN if v is None else _pe(t0.args[1] if v else t0.args[2], asg)
+    if t0.op in ("cmp", "boolop", "unop") or (t0.op == "call" and func_name(t0) == "builtins.bool") or (
+            t0.op == "getitem" and t0.args[0].op == "sym" and t0.args[0].args[0] == "options"):
+        v = _eval_cond(t0, asg)
+        if v is None and not (t0.op == "getitem" and t0.args[1].op == "const" and t0.args[1].args[0] in asg):
+            return _UNKNOWN
+        return v
+    if t0.op == "getitem":
+        base = strip_wrappers(t0.args[0])
+        key = _pe(t0.args[1], asg)
+        if key is _UNKNOWN:
+            return _UNKNOWN
+        if base.op == "dict":
+            for k_, v_ in zip(base.args[0::2], base.args[1::2]):
+                kv = _pe(k_, asg) if isinstance(k_, T) else _UNKNOWN
+                if kv is not _UNKNOWN and kv == key:
+                    return _pe(v_, asg)
+            return _UNKNOWN
+        if base.op in ("tuple", "list") and isinstance(key, int) and -len(base.args) <= key < len(base.args):
+            return _pe(base.args[key], asg)
+    return _UNKNOWN
 
 
 def _select(t: T, asg) -> Optional[T]:
@@ -281,10 +321,18 @@ def driver_dispatch(p: Program) -> Tuple[Dict[Tuple[str, bool, bool], Tuple[str,
         x, y, z = sym("§coupling"), sym("§operator"), sym("§prop_data")
         body = ev.open_closure(leaf, [x, y, z])
         body = strip_wrappers(body)
-        if not (body.op == "call" and body.args[0].op == "attr"):
+        body = strip_wrappers(_select(body, asg) or body)
+        meth = None
+        if body.op == "call" and body.args[0].op == "attr":
+            meth = body.args[0].args[1]
+        elif body.op == "call" and body.args[0].op == "call" and func_name(body.args[0]) == "builtins.getattr" and \
+                len(call_parts(body.args[0])[1]) == 2:
+            # getattr(sampler, <name chosen from a table by the options>)(...)
+            nm = _pe(call_parts(body.args[0])[1][1], asg)
+            meth = nm if isinstance(nm, str) else None
+        if meth is None:
             problems.append(f"wrapper for {asg} is not a sampler call")
             continue
-        meth = body.args[0].args[1]
         callee = p.lookup_method("sampling.sampler", meth)
         if callee is None:
             problems.append(f"sampler has no method {meth}")
